@@ -395,7 +395,7 @@ func lineText(E []token, ws []int) string {
 // ---------------------------------------------------------------------------
 // Generators
 
-var asciiPool = []rune("abcdefghijklmnopqrstuvwxyzABCDEFGHIJKLMNOPQRSTUVWXYZ0123456789.,!?'-:;()/&+*=<>#%@~^_|[]")
+var asciiPool = []rune("abcdefghijklmnopqrstuvwxyzABCDEFGHIJKLMNOPQRSTUVWXYZ0123456789.,!?'-:;()/&+*=<>#%@~^_|[]}}")
 var multiPool = []rune("éèêàçñüöäßŒœÀÉ♂♀…“”‘’あいうカタ中文字—·¿¡😀🎮")
 var codePool = []string{"{PLAYER}", "{RIVAL}", "{STR_VAR_1}", "{COLOR BLUE}", "{COLOR DARK_GRAY}", "{PAUSE 20}", "{ CLEAR_TO 10 }", "{}", "{PKMN}", "{A}", "{あ}", "{PLAY ER  2}", "{UNKNOWN_CODE}"}
 var breakCodes = []string{`\n`, `\n`, `\l`, `\l`, `\p`, `\p`, `\p`, `\N`, `\N`, `\N`}
@@ -626,7 +626,7 @@ func alphabetOf(widths map[string]int, r *rand.Rand) alphabet {
 	// a few runes the table does not know
 	for i := 0; i < 2; i++ {
 		if h.Chance(r, 0.5) {
-			a.runes = append(a.runes, h.Pick(r, []string{"あ", "中", "😀", "~", "^", "|"}))
+			a.runes = append(a.runes, h.Pick(r, []string{"あ", "中", "😀", "~", "^", "|", "}"}))
 		}
 	}
 	nc := r.IntN(4)
